@@ -794,6 +794,7 @@ archive_write_zip_header(struct archive_write *a, struct archive_entry *entry)
 	unsigned char *e;
 	unsigned char *cd_extra;
 	size_t filename_length;
+	const char *name;
 	const char *slink = NULL;
 	size_t slink_size = 0;
 	struct archive_string_conv *sconv = get_sconv(a, zip);
@@ -807,6 +808,14 @@ archive_write_zip_header(struct archive_write *a, struct archive_entry *entry)
 	if (type != AE_IFREG && type != AE_IFDIR && type != AE_IFLNK) {
 		__archive_write_entry_filetype_unsupported(
 		    &a->archive, entry, "zip");
+		return ARCHIVE_FAILED;
+	}
+
+	/* Sanity check: the name is what locates an entry. */
+	name = archive_entry_pathname(entry);
+	if (name == NULL || name[0] == '\0') {
+		archive_set_error(&a->archive, ARCHIVE_ERRNO_MISC,
+		    "Can't record entry in zip file without pathname");
 		return ARCHIVE_FAILED;
 	}
 
